@@ -149,7 +149,23 @@ pub fn behaviour(b: u64, rng: &mut Rng, out: &mut Out, big: bool, big_hi: u64) -
             let t = target_near(&u, rng);
             let ans = table.closest(Id::from(t));
             let idxs: Vec<i64> = ans.iter().map(|x| index.get(&(*x.id().as_bytes(), x.address())).map(|i| *i as i64 + 1).unwrap_or(-1)).collect();
-            json!({"e":"op","op":"closest","t":id_json(&t),"ans":idxs})
+            // ... "and therefore in find_node, get_peers and get responses": what a server holding this table (and an empty
+            // signed-peers table) answers to each request kind for this target, asked by a stranger whose id is not the target
+            let empty = RoutingTable::new(Id::from(tid));
+            let from = std::net::SocketAddrV4::new(std::net::Ipv4Addr::new(10, 200, 0, 9), 4000);
+            let requester_id = Id::from(rng.id());
+            let target = Id::from(t);
+            let mut served = serde_json::Map::new();
+            for (name, rt) in [
+                ("find_node", v::RequestTypeSpecific::FindNode(v::FindNodeRequestArguments { target })),
+                ("get_peers", v::RequestTypeSpecific::GetPeers(v::GetPeersRequestArguments { info_hash: target })),
+                ("get", v::RequestTypeSpecific::GetValue(v::GetValueRequestArguments { target, seq: None, salt: None })),
+            ] {
+                let nodes = v::served_nodes(&table, &empty, from, v::RequestSpecific { requester_id, request_type: rt });
+                let l: Vec<i64> = nodes.unwrap_or_default().iter().map(|x| index.get(&(*x.id().as_bytes(), x.address())).map(|i| *i as i64 + 1).unwrap_or(-1)).collect();
+                served.insert(name.to_string(), json!(l));
+            }
+            json!({"e":"op","op":"closest","t":id_json(&t),"ans":idxs,"served":served})
         } else {
             // accumulator: a random insertion order of a random subset
             let t = target_near(&u, rng);
